@@ -27,13 +27,20 @@ struct C01 : Harness {
                     else if (how == 1) { int bit = *irange(0, (int)key.size() * 8 - 1); key[(size_t)bit / 8] ^= (uint8_t)(1 << (bit % 8)); }
                     else if (how == 2) { size_t nz = (size_t)bs * (size_t)*irange(1, 3); key.resize(nz, (uint8_t)*irange(0, 255)); }
                 }
+                // tweakey words that coincide (TK2 == TK1, TK3 == TK2): "equal, so nothing to do" between two different words
+                if (key.size() > (size_t)bs && *chance(12)) {
+                    size_t from = (size_t)bs * (size_t)*irange(0, (int)(key.size() / bs) - 2);
+                    for (size_t i = 0; i < (size_t)bs; ++i) key[from + bs + i] = key[from + i];
+                }
                 keys.push_back(key);
                 p.push_back(mkop(std::string("new.") + kname(kind)).set("fill", *rc::gen::element(0, 0xA5, 0xFF)));
                 p.push_back(mkop(opn(kind, "set_key")).set("s", k).set("key", key).set("len", (long long)key.size()).set("ko", *goffset()));
                 int nb = *irange(1, 3);
                 for (int i = 0; i < nb; ++i) {
                     Op e = mkop(opn(kind, *chance(50) ? "dec" : "enc"));
-                    e.set("s", *irange(0, k)).set("in", *gbytes(bs));
+                    Bytes blk = *gbytes(bs);
+                    if (*chance(8)) { size_t from = (size_t)bs * (size_t)*irange(0, (int)(key.size() / bs) - 1); blk.assign(key.begin() + from, key.begin() + from + bs); }   // block == a tweakey word
+                    e.set("s", *irange(0, k)).set("in", blk);
                     if (*chance(25)) e.set("ov", *irange(-(bs - 1), bs - 1)).set("io", *goffset());
                     else e.set("io", *goffset()).set("oo", *goffset());
                     p.push_back(e);
